@@ -321,6 +321,19 @@ class World:
                     self.new_n += 1
             elif z < 0.9 and intx:
                 script['calls'].append(['getState', r.choice(intx + alld[:1])])
+            elif z < 0.94 and leafish:
+                # two removals on one path of the tree, in either order
+                h = r.choice(leafish)
+                anc = []
+                d = self.mdib.descriptions.handle.get_one(h, allow_none=True)
+                while d is not None and d.parent_handle is not None:
+                    d = self.mdib.descriptions.handle.get_one(d.parent_handle, allow_none=True)
+                    if d is not None and d.parent_handle is not None:
+                        anc.append(d.Handle)
+                if anc:
+                    pair = [h, r.choice(anc)]
+                    r.shuffle(pair)
+                    script['calls'] += [['removeDescr', pair[0]], ['removeDescr', pair[1]]]
             elif alld:
                 # related objects: parent of something already in the transaction
                 cand = [self.mdib.descriptions.handle.get_one(h, allow_none=True) for h in intx]
